@@ -18,6 +18,29 @@ from .state import PathEnd, PyRaise
 from .modular import run_loop, apply_contract, call_spec, merge_if, eval_old, OLD, SPECIAL_NAMES, finish_pending  # noqa
 
 
+class HexText:
+    """the text "%x" % v (lower-case hex digits of a non-negative int, no prefix), possibly with `pad` zeros in front;
+    only the operations of the hex idioms are defined on it (len, "0" + h, encode, unhexlify)"""
+
+    def __init__(self, v, pad=0, is_bytes=False):
+        self.v, self.pad, self.is_bytes = v, pad, is_bytes
+
+
+class HexOfBytes:
+    """binascii.hexlify(b) / b.hex() of symbolic bytes: only int(h, 16) and unhexlify(h) are defined on it"""
+
+    def __init__(self, b):
+        self.b = b
+
+
+def hexlen(ip, v):
+    """number of hex digits of the non-negative int v (uninterpreted; linked to the byte length of be_min_bytes)"""
+    f = z3.Function('hexlen', z3.IntSort(), z3.IntSort())
+    e = f(lift(v, 'int').e)
+    ip.st.assume_def(e >= 1)
+    return e
+
+
 class SymText:
     """text built by formatting symbolic values (exception messages); opaque: only passed around, never inspected"""
 
@@ -99,6 +122,21 @@ def binop(ip, op, a, b):
         if op is ast.Mod and isinstance(a, str):
             return SymText()
         raise Unsupported("binop on tuple")
+    if op is ast.Mod and isinstance(a, str) and a == "%x" and kind_of(b[0] if isinstance(b, tuple) and len(b) == 1 else b) == 'int':
+        v_ = b[0] if isinstance(b, tuple) else b
+        if not st.merge and st.branch(lift(v_, 'int').e < 0, "hex of a negative number"):
+            raise Unsupported("'%x' of a negative int")
+        if not st.merge:
+            # idiom fact: a number below 2^(4k) has at most k hex digits (tried for the usual widths)
+            for bits in (8, 16, 32, 64, 256, 264, 512, 1008):
+                if not st.feasible(lift(v_, 'int').e >= (1 << bits)):
+                    st.assume_def(hexlen(ip, v_) <= bits // 4)
+                    break
+        return HexText(v_)
+    if op is ast.Add and isinstance(b, HexText) and isinstance(a, (str, bytes)) and a in ("0", b"0"):
+        return HexText(b.v, b.pad + 1, b.is_bytes)
+    if isinstance(a, (HexText, HexOfBytes)) or isinstance(b, (HexText, HexOfBytes)):
+        raise Unsupported("operation on hex text outside the modelled idioms")
     if op is ast.Mod and isinstance(a, str) and not isinstance(b, Loc):
         return SymText()
     ka, kb = kind_of(a), kind_of(b)
@@ -570,6 +608,8 @@ def seq_peel_last(e, k=1):
 
 
 def seq_len(ip, v):
+    if isinstance(v, HexText):
+        return SV(simp(hexlen(ip, v.v) + v.pad), 'int')
     if isinstance(v, SV):
         if v.kind in ('bytes', 'str') or v.kind[0] == 'seq':
             return SV(simp(z3.Length(v.e)), 'int')
